@@ -144,10 +144,18 @@ Proof.
   destruct (orb (c_public c) (cr_ok cr)); apply PR_ret; reflexivity.
 Qed.
 
+Lemma prel_jwt_bearer_client d w cr : prel d (fun x => x) (jwt_bearer_client w cr) (jwt_bearer_client w cr).
+Proof.
+  unfold jwt_bearer_client. eapply prel_bind; [apply prel_authenticated|]. intros [c|]; [apply PR_ret; reflexivity|].
+  destruct (andb _ _); apply PR_ret; reflexivity.
+Qed.
+
 (* one step of structural matching of two programs that differ only by the shift *)
 Ltac pstep d :=
   match goal with
   | |- prel _ _ (Ret _) (Ret _) => apply PR_ret
+  | |- prel _ _ (bind (jwt_bearer_client _ _) _) (bind (jwt_bearer_client _ _) _) =>
+      eapply prel_bind; [apply prel_jwt_bearer_client|]; intros [?c|]; autorewrite with shdb
   | |- prel _ _ (bind (authenticated _ _) _) (bind (authenticated _ _) _) =>
       eapply prel_bind; [apply prel_authenticated|]; intros [?c|]; autorewrite with shdb
   | |- prel _ _ (bind (get_client _ _) _) (bind (get_client _ _) _) =>
@@ -297,6 +305,8 @@ Lemma prel_refresh_grant d w n now r : prel d (sh_out d) (refresh_grant w n now 
 Proof. unfold refresh_grant. go d. Qed.
 Lemma prel_cc_grant d w n now r : prel d (sh_out d) (cc_grant w n now r) (cc_grant w n (now + d) r).
 Proof. unfold cc_grant. go d. Qed.
+Lemma prel_jwt_bearer_grant d w n now r : prel d (sh_out d) (jwt_bearer_grant w n now r) (jwt_bearer_grant w n (now + d) r).
+Proof. unfold jwt_bearer_grant. go d. Qed.
 Lemma prel_ciba_grant d w n now r : prel d (sh_out d) (ciba_grant w n now r) (ciba_grant w n (now + d) r).
 Proof. unfold ciba_grant. go d. Qed.
 Lemma prel_notify_success d w n now a hg :
